@@ -45,7 +45,7 @@ ASSUMPTIONS = [
 ]
 EXHAUSTIVE_SCOPE = {
   "quick": "all histories of length <= 3 over the 19-op alphabet (3 hosts on one 4-port switch: 12 unicast/broadcast/unknown "
-           "frames, LLDP-type and 01:80:c2:00:00:00 frame, 3 moves, advance 12 s / 32 s) x 4 configurations "
+           "frames (host 0 sends IPv4/UDP with ECN bits set, host 1 IPv4/TCP with a DSCP, host 2 an opaque ethertype), LLDP-type and 01:80:c2:00:00:00 frame, 3 moves, advance 12 s / 32 s) x 4 configurations "
            "(transparent, pool, miss_send_len) in {(F,100,128),(T,100,128),(F,0,128),(F,1,14)}",
   "thorough": "as quick with length <= 4",
 }
@@ -99,23 +99,49 @@ def dst_mac(d):
   raise HarnessError("bad destination %r" % (d,))
 
 
-def build_frame(src_i, dmac, dst_ip_i, t, v, n, seq):
-  """One Ethernet frame.  t: 0 opaque ethertype, 1 IPv4/UDP, 2 ARP, 3 LLDP ethertype, 4 802.1Q + opaque, 5 802.3/LLC.
-  v: header variant (changes a matched header field), n: extra payload bytes, seq: unique id carried in the payload."""
-  src = host_mac(src_i)
-  tag = struct.pack("!I", seq) + bytes((seq + k) & 0xff for k in range(n))
-  if t == 0:
-    return dmac + src + struct.pack("!H", 0x88b5 + (v & 1)) + tag
-  if t == 1:
-    sip, dip = _ip(src_i), _ip(dst_ip_i)
+def _ipv4(sip, dip, proto, payload, seq, tos=0, frag=0):
+  """IPv4 header + payload.  frag: 0 whole datagram, 1 first fragment (MF set), 2 later fragment (offset 64)."""
+  fl = {0: 0, 1: 0x2000, 2: 0x0008}[frag]
+  h = struct.pack("!BBHHHBBH", 0x45, tos & 0xff, 20 + len(payload), 0x1000 + (seq & 0xfff), fl, 64, proto, 0) + sip + dip
+  return h[:10] + struct.pack("!H", _csum(h)) + h[12:] + payload
+
+
+def _l4(kind, sip, dip, v, tag):
+  """(protocol number, bytes) of a UDP / TCP / ICMP echo carrying the tag."""
+  if kind == "udp":
     ulen = 8 + len(tag)
     sp, dp = 1000, 2000 + (v & 1)
     u = struct.pack("!HHHH", sp, dp, ulen, 0) + tag
     c = _csum(sip + dip + struct.pack("!BBH", 0, 17, ulen) + u) or 0xffff
-    u = struct.pack("!HHHH", sp, dp, ulen, c) + tag
-    h = struct.pack("!BBHHHBBH", 0x45, 0, 20 + ulen, 0x1000 + (seq & 0xfff), 0, 64, 17, 0) + sip + dip
-    h = h[:10] + struct.pack("!H", _csum(h)) + h[12:]
-    return dmac + src + b"\x08\x00" + h + u
+    return 17, struct.pack("!HHHH", sp, dp, ulen, c) + tag
+  if kind == "tcp":
+    sp, dp = 3000, 4000 + (v & 1)
+    t_ = struct.pack("!HHLLBBHHH", sp, dp, 1, 0, 5 << 4, 0x18, 1024, 0, 0) + tag
+    c = _csum(sip + dip + struct.pack("!BBH", 0, 6, len(t_)) + t_)
+    return 6, t_[:16] + struct.pack("!H", c) + t_[18:]
+  if kind == "icmp":
+    i_ = struct.pack("!BBHHH", 8, v & 1, 0, 7, 1) + tag
+    return 1, i_[:2] + struct.pack("!H", _csum(i_)) + i_[4:]
+  raise HarnessError("bad l4 %r" % (kind,))
+
+
+def build_frame(src_i, dmac, dst_ip_i, t, v, n, seq, tos=0, frag=0):
+  """One Ethernet frame.  t: 0 opaque ethertype, 1 IPv4/UDP, 2 ARP, 3 LLDP ethertype, 4 802.1Q + opaque, 5 802.3/LLC,
+  6 IPv4/TCP, 7 IPv4/ICMP, 8 802.1Q + IPv4/UDP.  v: header variant (changes a matched header field), n: extra payload
+  bytes, seq: unique id carried in the payload, tos: IPv4 TOS byte (DSCP << 2 | ECN), frag: IPv4 fragmentation."""
+  src = host_mac(src_i)
+  tag = struct.pack("!I", seq) + bytes((seq + k) & 0xff for k in range(n))
+  if t == 0:
+    return dmac + src + struct.pack("!H", 0x88b5 + (v & 1)) + tag
+  if t in (1, 6, 7, 8):
+    sip, dip = _ip(src_i), _ip(dst_ip_i)
+    proto, l4 = _l4({1: "udp", 6: "tcp", 7: "icmp", 8: "udp"}[t], sip, dip, v, tag)
+    if frag == 2:
+      l4 = tag + bytes(8)                   # a later fragment carries no transport header
+    ip = _ipv4(sip, dip, proto, l4, seq, tos, frag)
+    if t == 8:
+      return dmac + src + b"\x81\x00" + struct.pack("!HH", (5 << 13) | (7 + (v & 1)), 0x0800) + ip
+    return dmac + src + b"\x08\x00" + ip
   if t == 2:
     body = struct.pack("!HHBBH", 1, 0x0800, 6, 4, 1 + (v & 1)) + src + _ip(src_i) + b"\0" * 6 + _ip(dst_ip_i)
     return dmac + src + b"\x08\x06" + body + tag
@@ -133,6 +159,24 @@ def build_frame(src_i, dmac, dst_ip_i, t, v, n, seq):
   raise HarnessError("bad template %r" % (t,))
 
 
+NT = 9          # number of header templates
+TOS = [0, 0x01, 0x02, 0x03, 0xb8, 0xb9, 0x28, 0xff]
+
+
+def frame_class(fop):
+  t = fop.get("t", 0) % NT
+  if t in (1, 6, 7, 8):
+    if fop.get("frag", 0) % 3:
+      return "ipv4-fragment"
+    if fop.get("tos", 0) & 3:
+      return "ipv4-ecn"
+    if fop.get("tos", 0):
+      return "ipv4-dscp"
+    return ["", "ipv4-udp", "", "", "", "", "ipv4-tcp", "ipv4-icmp", "vlan-ipv4"][t]
+  return ["opaque", "", "arp", "lldp-type", "vlan", "llc"][t]
+
+
+SETTLE_ROUNDS = 120     # a frame needs a handful of control round trips per hop; 3 hops at most
 ADV = [1, 8, 16, 40, 72, 79, 80, 81, 88, 96, 97, 104, 160, 232, 240, 248, 256, 257, 272, 400]
 MSL = [14, 20, 48, 128, 2048]
 POOLS = [0, 1, 100]
@@ -193,7 +237,7 @@ def run_case(case):
     seq = [0]
     st_ = {"moved_sent": set(), "flow": False, "gap_after_flow": False, "nontrivial": False,
            "leak_reported": False, "frames": 0, "hops": 0, "noncanon": 0, "exhausted": 0,
-           "kinds": set(), "multi_hop": False}
+           "kinds": set(), "multi_hop": False, "classes": set()}
 
     def make(fop):
       h = fop["h"] % nh
@@ -202,13 +246,16 @@ def run_case(case):
         d[1] = d[1] % nh
       dmac = dst_mac(d)
       seq[0] += 1
-      raw = build_frame(h, dmac, d[1] if d[0] == "h" else 200, fop.get("t", 0) % 6,
-                        fop.get("v", 0), fop.get("n", 0), seq[0])
+      t_ = fop.get("t", 0) % NT
+      raw = build_frame(h, dmac, d[1] if d[0] == "h" else 200, t_,
+                        fop.get("v", 0), fop.get("n", 0), seq[0], fop.get("tos", 0) & 0xff, fop.get("frag", 0) % 3)
+      st_["classes"].add(frame_class(fop))
       canon = pkt.ethernet(raw).pack()
       if canon != raw:
         st_["noncanon"] += 1
-      meta = {"seq": seq[0], "h": h, "d": d, "tmpl": (fop.get("t", 0) % 6, fop.get("v", 0) & 1),
-              "origin": where[h], "raw": raw, "canon": canon}
+      meta = {"seq": seq[0], "h": h, "d": d,
+              "tmpl": (t_, fop.get("v", 0) & 1, fop.get("tos", 0) & 0xff, fop.get("frag", 0) % 3),
+              "origin": where[h], "raw": raw, "canon": canon, "cls": frame_class(fop)}
       frames[canon] = meta
       frames[raw] = meta          # (identity of POX's parse -> pack on these frames is C14's subject, not judged here)
       # non-trivial rule
@@ -287,6 +334,27 @@ def run_case(case):
                 d, held, pool, msl), dst=kind)
             break
 
+    def settle():
+      """Run control and data plane to quiescence.  False (and a violation) when they never get there."""
+      try:
+        w.settle(max_rounds=SETTLE_ROUNDS)
+        return True
+      except HarnessError as e:
+        if "does not settle" not in str(e):
+          raise
+      cur = [frames.get(h_["data"]) for h_ in net._current]
+      cls = sorted(set(m["cls"] for m in cur if m), key=lambda c_: (c_ != "ipv4-fragment", c_ != "ipv4-ecn", c_))
+      kinds_ = []
+      for h_ in net._current:
+        dm = h_["data"][0:6]
+        kinds_.append("multicast" if B.is_multicast(dm) else "known" if dm in models[h_["sw"]].seen else "unknown")
+      out.fail("control-loop-does-not-quiesce",
+               "switch and controller still exchange messages after %d rounds for frame(s) %r entering switch(es) %r "
+               "(pool %d, miss_send_len %d): the frame is never delivered" % (
+                   SETTLE_ROUNDS, [(m["seq"], m["cls"], m["d"]) for m in cur if m], [h_["sw"] for h_ in net._current], pool, msl),
+               frame=cls[0] if cls else "?", dst=sorted(set(kinds_))[0] if kinds_ else "?")
+      return False
+
     history = []                 # frame ops so far, for "r" (resend the k-th last one, possibly reversed)
 
     def resolve(fop):
@@ -310,14 +378,16 @@ def run_case(case):
         raw, meta = make(op)
         net.mode = "seq"
         net.inject(meta["origin"][0], meta["origin"][1], raw)
-        w.settle()
+        if not settle():
+          break
         judge(False)
       elif o == "burst":
         net.mode = "wave"
         for fop in op["fs"]:
           raw, meta = make(resolve(fop))
           net.inject(meta["origin"][0], meta["origin"][1], raw)
-        w.settle()
+        if not settle():
+          break
         net.mode = "seq"
         judge(True)
         st_["burst"] = True
@@ -367,6 +437,8 @@ def run_case(case):
       out.label("has:multi-hop")
     if st_["noncanon"]:
       out.label("has:non-canonical-frame")
+    for c_ in sorted(st_["classes"]):
+      out.label("frame:" + c_)
     out.info = {"frames": st_["frames"], "hops": st_["hops"], "stats": tot}
     return out
   finally:
@@ -380,7 +452,8 @@ def _alphabet():
   for h in range(3):
     for j in range(3):
       if j != h:
-        ops.append({"o": "f", "h": h, "d": ["h", j], "t": 0, "v": 0, "n": 40})
+        ops.append(dict({"o": "f", "h": h, "d": ["h", j], "v": 0, "n": 40},
+                        **[{"t": 1, "tos": 0x03}, {"t": 6, "tos": 0xb8}, {"t": 0}][h]))
     ops.append({"o": "f", "h": h, "d": ["b"], "t": 2, "v": 0, "n": 18})
     ops.append({"o": "f", "h": h, "d": ["u", 1], "t": 1, "v": 0, "n": 40})
   ops.append({"o": "f", "h": 0, "d": ["h", 1], "t": 3, "v": 0, "n": 10})
@@ -420,16 +493,19 @@ def _dest(nh, focused):
 
 
 def _frame(nh, focused):
+  tos = st.sampled_from([0, 0, 0, 0] + TOS)
+  frag = st.sampled_from([0] * 10 + [1, 2])
   if focused:
     # conversations: few header templates so that cached flows are hit again
     return st.fixed_dictionaries({
         "o": st.just("f"), "h": st.integers(0, nh - 1), "d": _dest(nh, True),
-        "t": st.sampled_from([0, 0, 0, 0, 0, 0, 1, 3]), "v": st.sampled_from([0, 0, 0, 1]),
-        "n": st.sampled_from([40, 40, 40, 300])})
+        "t": st.sampled_from([0, 0, 0, 0, 1, 1, 6, 3]), "v": st.sampled_from([0, 0, 0, 1]),
+        "n": st.sampled_from([40, 40, 40, 300]), "tos": st.sampled_from([0, 0, 0, 0, 0, 0, 0x02, 0xb9]),
+        "frag": st.sampled_from([0] * 15 + [1])})
   return st.fixed_dictionaries({
       "o": st.just("f"), "h": st.integers(0, nh - 1), "d": _dest(nh, False),
-      "t": st.sampled_from([0, 0, 0, 1, 1, 2, 3, 4, 5]), "v": st.integers(0, 1),
-      "n": st.sampled_from([0, 10, 40, 40, 120, 300])})
+      "t": st.sampled_from([0, 0, 1, 1, 6, 7, 8, 2, 3, 4, 5]), "v": st.integers(0, 1),
+      "n": st.sampled_from([0, 10, 40, 40, 120, 300]), "tos": tos, "frag": frag})
 
 
 @st.composite
